@@ -70,8 +70,8 @@ def step (s : S) (ws : List String) : S × String :=
   | ["meq", i, j] =>
     match getM s i, getM s j with
     | some a, some b =>
-      let ek := a.all.map (·.1) == b.all.map (·.1)
-      let ev := a.all == b.all
+      let ek := a.equalKeys b
+      let ev := a.slowEqual b
       (s, s!"{ek} {ev}")
     | _, _ => (s, "bad-op")
   | ["mjson", i] => match getM s i with | some m => pushMap s (Map.ofEntries P m.all) | none => (s, "bad-op")
